@@ -17,6 +17,7 @@ class ExtractionBreak(Exception):
 # configuration of /repo/_build (DESIGN 3.1 step 1)
 CONFIG_MACROS = {
     'XALAN_DEBUG': False,
+    'XALAN_NEWLINE_IS_CRLF': False,
     'XALAN_ICU_DEFAULT_LOCALE_PROBLEM': False,
     'XALAN_AUTO_PTR_REQUIRES_DEFINITION': True,
     'XALAN_NON_ASCII_PLATFORM': False,
